@@ -1,10 +1,12 @@
 """B4: extraction of the memory orderings of the sequence lock from the current source."""
+import os
 import re
 
 from tla import ToolError
 
-SYNC_CELL = "/repo/nexosim/src/util/sync_cell.rs"
-MONO = "/repo/nexosim/src/time/monotonic_time.rs"
+REPO = os.environ.get("VERIF_REPO", "/repo")
+SYNC_CELL = REPO + "/nexosim/src/util/sync_cell.rs"
+MONO = REPO + "/nexosim/src/time/monotonic_time.rs"
 
 
 def _body(src, header):
